@@ -717,7 +717,7 @@ def run_death_child(args, workdir):
     tools = os.path.dirname(os.path.dirname(os.path.abspath(__file__)))
     code = "import sys; sys.path.insert(0, %r); from ofxv import client_harness as H; H.death_child(sys.argv[1])" % tools
     env = dict(os.environ, PYTHONHASHSEED="0", PYTHONDONTWRITEBYTECODE="1", OFXV_REPO=C.REPO)
-    p = subprocess.run([C.PY, "-c", code, af], stdout=subprocess.PIPE, stderr=subprocess.STDOUT, env=env, timeout=120)
+    p = subprocess.run([C.PY, "-c", code, af], stdout=subprocess.PIPE, stderr=subprocess.STDOUT, env=env, timeout=900)
     return p.returncode, p.stdout.decode("utf-8", "replace")
 
 
